@@ -33,11 +33,16 @@ type evt struct {
 	G    string // goroutine tag of the Add call on whose behalf the callback ran ("" = unknown)
 	Kind string // fetch | versions | sourceaddr | find | dl-start | dl-success | dl-failure | dl-already | rv-* | rs-* | diags
 	Key  string
+	Span string // the span token carried by the context the event arrived on ("" = none)
 }
 
 type ctxKey int
 
 const tagKey ctxKey = 1
+
+// spanKey: every "start" callback of the harness tracer returns a context
+// that carries a fresh span token, the way a tracing client would.
+const spanKey ctxKey = 2
 
 // fault describes one injected failure: the n-th callback invocation (1-based,
 // counted over fetch / versions / sourceaddr / find) misbehaves.
@@ -67,6 +72,8 @@ type buildEnv struct {
 	onCall        func(ordinal int, phase string) // crash-point hook: "enter" / "exit"
 	problems      []string                        // harness-side observations (finder saw wrong content, ...)
 	diagSeen      []sourcebundle.Diagnostics      // what the tracer's Diagnostics callback received
+	diagOwner     []string                        // per diagSeen entry: the Add call whose tracer received it
+	spans         int
 }
 
 func newBuildEnv(w *gen.World) (*buildEnv, error) {
@@ -111,9 +118,25 @@ func (be *buildEnv) record(ctx context.Context, kind, key string) {
 	if tag == "" {
 		tag = "g" + goid()
 	}
+	span := ""
+	if ctx != nil {
+		span, _ = ctx.Value(spanKey).(string)
+	}
 	be.mu.Lock()
-	be.log = append(be.log, evt{Seq: len(be.log), G: tag, Kind: kind, Key: key})
+	be.log = append(be.log, evt{Seq: len(be.log), G: tag, Kind: kind, Key: key, Span: span})
 	be.mu.Unlock()
+}
+
+// start records a "start" event and returns the context the matching end
+// event (and the request in between) is to arrive on.
+func (be *buildEnv) start(ctx context.Context, kind, key string) context.Context {
+	be.mu.Lock()
+	be.spans++
+	id := fmt.Sprintf("span-%d", be.spans)
+	be.mu.Unlock()
+	ctx = context.WithValue(ctx, spanKey, id)
+	be.record(ctx, kind, key)
+	return ctx
 }
 
 // enter registers one callback invocation; it returns the ordinal and the
@@ -194,7 +217,7 @@ func (be *buildEnv) FetchSourcePackage(ctx context.Context, sourceType string, u
 	switch mode {
 	case "abort":
 		return resp, fmt.Errorf("harness: callback budget exceeded")
-	case "error", "error-diag", "warning-diag":
+	case "error", "error-diag", "error-diag-nowhere", "warning-diag":
 		if mode == "error" {
 			return resp, fmt.Errorf("injected fetch failure #%d", n)
 		}
@@ -289,7 +312,7 @@ func (be *buildEnv) ModulePackageVersions(ctx context.Context, pkgAddr regaddr.M
 	}
 	for _, v := range be.w.Registry[i].Versions {
 		info := sourcebundle.ModulePackageInfo{Version: mustVersion(v.V)}
-		if v.Deprecated != "" {
+		if v.IsDeprecated() {
 			info.Deprecation = &sourcebundle.ModulePackageVersionDeprecation{Reason: v.Deprecated, Link: v.Link}
 		}
 		resp.Versions = append(resp.Versions, info)
@@ -406,7 +429,11 @@ func (f *hFinder) FindDependencies(fsys fs.FS, subPath string, deps *sourcebundl
 	case "error", "partial-then-error", "error-diag":
 		diags = append(diags, hDiag{sev: sourcebundle.DiagError, summary: fmt.Sprintf("injected finder error #%d", n), detail: "detail of injected error", file: path.Join(subPath, "main.tf"), ctxFile: path.Join(subPath, "ctx.tf"), extra: n})
 		return diags
+	case "error-diag-nowhere":
+		// a failure that has no file to point at
+		return append(diags, hDiag{sev: sourcebundle.DiagError, summary: fmt.Sprintf("location-less finder error #%d", n), detail: "no file to point at", extra: n})
 	case "warning-diag", "warning-if-finder":
+		diags = append(diags, hDiag{sev: sourcebundle.DiagWarning, summary: fmt.Sprintf("location-less warning #%d", n), detail: "no file to point at", extra: n})
 		diags = append(diags, hDiag{sev: sourcebundle.DiagWarning, summary: fmt.Sprintf("injected finder warning #%d", n), detail: "detail of injected warning", file: path.Join(subPath, "main.tf"), ctxFile: "", extra: fmt.Sprintf("extra-%d", n)})
 		diags = append(diags, hDiag{sev: sourcebundle.DiagWarning, summary: fmt.Sprintf("context-only warning #%d", n), detail: "has a context range but no subject", file: "", ctxFile: path.Join(subPath, "only-ctx.tf")})
 	}
@@ -459,11 +486,11 @@ func allowedSet(spec string) versions.Set {
 
 // ---- tracer ----------------------------------------------------------------------------
 
-func (be *buildEnv) tracer() *sourcebundle.BuildTracer {
+// tracer makes the tracer of one Add call (owner = that call's tag).
+func (be *buildEnv) tracer(owner string) *sourcebundle.BuildTracer {
 	return &sourcebundle.BuildTracer{
 		RegistryPackageVersionsStart: func(ctx context.Context, pkg regaddr.ModulePackage) context.Context {
-			be.record(ctx, "rv-start", pkg.String())
-			return ctx
+			return be.start(ctx, "rv-start", pkg.String())
 		},
 		RegistryPackageVersionsSuccess: func(ctx context.Context, pkg regaddr.ModulePackage, vs versions.List) {
 			be.record(ctx, "rv-success", pkg.String())
@@ -475,8 +502,7 @@ func (be *buildEnv) tracer() *sourcebundle.BuildTracer {
 			be.record(ctx, "rv-already", pkg.String())
 		},
 		RegistryPackageSourceStart: func(ctx context.Context, pkg regaddr.ModulePackage, v versions.Version) context.Context {
-			be.record(ctx, "rs-start", pkg.String()+"@"+v.String())
-			return ctx
+			return be.start(ctx, "rs-start", pkg.String()+"@"+v.String())
 		},
 		RegistryPackageSourceSuccess: func(ctx context.Context, pkg regaddr.ModulePackage, v versions.Version, src sourceaddrs.RemoteSource) {
 			be.record(ctx, "rs-success", pkg.String()+"@"+v.String())
@@ -488,8 +514,7 @@ func (be *buildEnv) tracer() *sourcebundle.BuildTracer {
 			be.record(ctx, "rs-already", pkg.String()+"@"+v.String())
 		},
 		RemotePackageDownloadStart: func(ctx context.Context, pkg sourceaddrs.RemotePackage) context.Context {
-			be.record(ctx, "dl-start", pkg.String())
-			return ctx
+			return be.start(ctx, "dl-start", pkg.String())
 		},
 		RemotePackageDownloadSuccess: func(ctx context.Context, pkg sourceaddrs.RemotePackage) {
 			be.record(ctx, "dl-success", pkg.String())
@@ -504,6 +529,7 @@ func (be *buildEnv) tracer() *sourcebundle.BuildTracer {
 			be.record(ctx, "diags", strconv.Itoa(len(diags)))
 			be.mu.Lock()
 			be.diagSeen = append(be.diagSeen, diags)
+			be.diagOwner = append(be.diagOwner, owner)
 			be.mu.Unlock()
 		},
 	}
@@ -642,8 +668,12 @@ func runBuild(w *gen.World, dir string, o buildOpts) *buildResult {
 		}
 	}
 	base := context.Background()
-	if !o.NoTracer {
-		base = be.tracer().OnContext(base)
+	// every Add call brings its own tracer
+	withTracer := func(ctx context.Context, tag string) context.Context {
+		if o.NoTracer {
+			return ctx
+		}
+		return be.tracer(tag).OnContext(ctx)
 	}
 	res.Adds = make([]addResult, len(order))
 	if o.Concurrent {
@@ -655,7 +685,7 @@ func runBuild(w *gen.World, dir string, o buildOpts) *buildResult {
 			go func() {
 				defer wg.Done()
 				tag := fmt.Sprintf("A%d", k)
-				ctx := context.WithValue(base, tagKey, tag)
+				ctx := withTracer(context.WithValue(base, tagKey, tag), tag)
 				<-start
 				d, p := doAdd(ctx, b, be, w.Adds[ai])
 				res.Adds[k] = addResult{Add: w.Adds[ai], Diags: d, Panic: p, Tag: tag}
@@ -666,7 +696,7 @@ func runBuild(w *gen.World, dir string, o buildOpts) *buildResult {
 	} else {
 		for k, ai := range order {
 			tag := fmt.Sprintf("A%d", k)
-			ctx := context.WithValue(base, tagKey, tag)
+			ctx := withTracer(context.WithValue(base, tagKey, tag), tag)
 			be.mu.Lock()
 			be.currentAdd = k
 			be.mu.Unlock()
